@@ -191,6 +191,14 @@ func renderTypes(s []httpapi.Endpoint) string {
 		if ty := api.Contract.Return; ty != nil {
 			allTypes = append(allTypes, ty)
 		}
+		if ty := api.Contract.InputForm.JSON.Type; ty != nil { // type of the formValue argument
+			allTypes = append(allTypes, ty)
+		}
+		for _, param := range api.Contract.InputQueryParams { // named types used in params
+			if param.Type != nil {
+				allTypes = append(allTypes, param.Type)
+			}
+		}
 	}
 	return generator.WriteDeclarations(generateTypes(allTypes))
 }
